@@ -71,3 +71,86 @@ fn witness_roundtrip_fullmove_numbers() {
     }
     assert_eq!(bad, 0);
 }
+
+// ---- independent successor reference (mailbox, written from the rules): the FEN after playing a move given as UCI text ----
+fn ref_successor(fen: &str, uci: &str) -> String {
+    let parts: Vec<&str> = fen.split(' ').collect();
+    let mut g = [['.'; 8]; 8];
+    for (r, row) in parts[0].split('/').enumerate() {
+        let mut f = 0usize;
+        for ch in row.chars() { if let Some(d) = ch.to_digit(10) { f += d as usize; } else { g[r][f] = ch; f += 1; } }
+    }
+    let white = parts[1] == "w";
+    let b = uci.as_bytes();
+    let (ff, fr, tf, tr) = ((b[0] - b'a') as usize, (b'8' - b[1]) as usize, (b[2] - b'a') as usize, (b'8' - b[3]) as usize);
+    let piece = g[fr][ff];
+    let captured = g[tr][tf];
+    let is_pawn = piece.to_ascii_lowercase() == 'p';
+    let is_ep = is_pawn && ff != tf && captured == '.';
+    g[fr][ff] = '.';
+    if is_ep { g[fr][tf] = '.'; }
+    g[tr][tf] = if uci.len() == 5 { let p = b[4] as char; if white { p.to_ascii_uppercase() } else { p } } else { piece };
+    if piece.to_ascii_lowercase() == 'k' && ff == 4 && (tf == 6 || tf == 2) && fr == tr {
+        if tf == 6 { g[fr][5] = g[fr][7]; g[fr][7] = '.'; } else { g[fr][3] = g[fr][0]; g[fr][0] = '.'; }
+    }
+    // rights: lost when the king moves, when a rook leaves its corner, when something lands on a rook's corner
+    let mut rights: Vec<char> = parts[2].chars().filter(|c| *c != '-').collect();
+    let mut lose = |c: char, rights: &mut Vec<char>| rights.retain(|x| *x != c);
+    if piece == 'K' { lose('K', &mut rights); lose('Q', &mut rights); }
+    if piece == 'k' { lose('k', &mut rights); lose('q', &mut rights); }
+    for (r, f, c) in [(7usize, 0usize, 'Q'), (7, 7, 'K'), (0, 0, 'q'), (0, 7, 'k')] {
+        if (fr, ff) == (r, f) || (tr, tf) == (r, f) { lose(c, &mut rights); }
+    }
+    let rights_s = if rights.is_empty() { "-".to_string() } else { rights.into_iter().collect() };
+    let ep = if is_pawn && (fr as i32 - tr as i32).abs() == 2 { format!("{}{}", (b'a' + ff as u8) as char, 8 - (fr + tr) / 2) } else { "-".to_string() };
+    let half: u64 = parts[4].parse().unwrap();
+    let full: u64 = parts[5].parse().unwrap();
+    let half2 = if is_pawn || captured != '.' { 0 } else { half + 1 };
+    let full2 = if white { full } else { full + 1 };
+    let mut rows = Vec::new();
+    for r in 0..8 { let mut s = String::new(); let mut n = 0; for f in 0..8 { if g[r][f] == '.' { n += 1; } else { if n > 0 { s.push_str(&n.to_string()); n = 0; } s.push(g[r][f]); } } if n > 0 { s.push_str(&n.to_string()); } rows.push(s); }
+    format!("{} {} {} {} {} {}", rows.join("/"), if white { "b" } else { "w" }, rights_s, ep, half2, full2)
+}
+
+/// C02/C03 along deterministic pseudo-random games: every pseudo-legal move's successor equals the reference successor and
+/// unmaking it restores the position (FEN and both hashes)
+#[test]
+fn witness_successor_and_roundtrip_along_games() {
+    let mut bad = 0usize;
+    let mut x: u64 = 0x2545F4914F6CDD1D;
+    for root in ["rnbqkbnr/pppppppp/8/8/8/8/PPPPPPPP/RNBQKBNR w KQkq - 0 1",
+                 "r3k2r/p1ppqpb1/bn2pnp1/3PN3/1p2P3/2N2Q1p/PPPBBPPP/R3K2R w KQkq - 0 1",
+                 "r3k2r/8/8/8/8/8/8/R3K2R w KQkq - 3 20", "8/P5k1/8/3pP3/8/8/6p1/K6R w - d6 0 90",
+                 "rnbq1k1r/pp1Pbppp/2p5/8/2B5/8/PPP1NnPP/RNBQK2R w KQ - 1 8"] {
+        for _game in 0..12 {
+            let mut board = Bitboard::from_fen_string_unchecked(root);
+            for _ply in 0..50 {
+                let fen = Fen::from(&board).fen;
+                let before = snapshot(&board);
+                for mv in board.generate_pseudo_legal_moves() {
+                    let uci = mv.to_uci_string();
+                    let captured_king = { let t = uci.as_bytes(); let (tf, tr) = ((t[2] - b'a') as usize, (b'8' - t[3]) as usize); fen.split(' ').next().unwrap().split('/').nth(tr).map(|row| { let mut f = 0usize; let mut c = '.'; for ch in row.chars() { if let Some(d) = ch.to_digit(10) { f += d as usize; } else { if f == tf { c = ch; } f += 1; } } c }).unwrap_or('.').to_ascii_lowercase() == 'k' };
+                    if captured_king { continue; }
+                    board.make(mv);
+                    let got = Fen::from(&board).fen;
+                    let expect = ref_successor(&fen, &uci);
+                    if got != expect {
+                        if bad < 5 { println!("FAILING-INPUT: fen={:?} move {}: successor {:?}, the rules give {:?}", fen, uci, got, expect); }
+                        bad += 1;
+                    }
+                    board.unmake(mv);
+                    if snapshot(&board) != before {
+                        if bad < 5 { println!("FAILING-INPUT: fen={:?} move {}: make+unmake gives {:?}", fen, uci, Fen::from(&board).fen); }
+                        bad += 1;
+                        board = Bitboard::from_fen_string_unchecked(&fen);
+                    }
+                }
+                let legal = board.generate_legal_moves();
+                if legal.is_empty() { break; }
+                x ^= x << 13; x ^= x >> 7; x ^= x << 17;
+                board.make(legal[(x % legal.len() as u64) as usize]);
+            }
+        }
+    }
+    assert_eq!(bad, 0);
+}
